@@ -139,8 +139,7 @@ class TorchNNPureFunction(PureFunction):
 
     def _set_all_obj_params(self, objparams: List):
         for (name, param) in zip(self.names, objparams):
-            del_attr(self.obj, name)  # delete required in case the param is not a torch.nn.Parameter
-            set_attr(self.obj, name, param)
+            set_attr(self.obj, name, param)  # written into the place where the name lives
 
 class SingleSiblingPureFunction(PureFunction):
     def __init__(self, fcn: Callable, fcntocall: Callable):
